@@ -8,7 +8,7 @@ from __future__ import annotations
 import ast
 from typing import Any, Dict, FrozenSet, List, Optional, Set, Tuple
 
-from vlib import match, source
+from vlib import flow, match, source
 from vlib.cfg import CFG, Node, own_calls, own_exprs
 from vlib.flow import UNKNOWN, eval_const, forward, specialise
 from vlib.source import AnalysisError, call_name, dotted, last_attr, short
@@ -745,6 +745,10 @@ def run(ctx) -> None:
              "the store and the return is the result rebound, written into or passed to a mutator")
     ctx.rule("C08.R4b-pattern", "invalidation patterns agree with the cache label format")
     ctx.rule("C08.R5-external", "no code outside flowir.py writes FlowIRConcrete's storage or cache directly")
+    ctx.rule("C08.R14-stored-components-are-private", "a component definition that enters the description (the constructor's per-component pipeline, "
+             "add_component with insert_copy, update_component) is a deep copy of what the caller handed in: a shallow copy keeps the nested "
+             "sections shared with the caller's object and with sibling components built from it, and an update of one sibling through the "
+             "interface then changes the other behind its cache entries")
     ctx.rule("C08.R13-index-and-description-share-objects", "an object stored into the component lookup index is also put into the description by the same function")
     ctx.rule("C08.R10-clear-then-fill-cannot-fail-in-between", "a mutator that empties a stored object and refills it from a caller's argument "
              "(X.clear(); X.update(arg)) either invalidates before the clear or has converted the argument (dict(..), deep_copy(..)) before "
@@ -968,6 +972,74 @@ def run(ctx) -> None:
                    "after update_component((0,'a'), new) a copy of the object resolves stage0.a from the OLD definition, and later "
                    "set_component_variable calls widen the gap" % (mname, short(v, 30), attr),
                    construct="%s: self.%s[...] = <object also listed in the description>" % (mname, attr))
+
+    # ---- R14: what enters the description is a private (deep) copy ------------------------------------
+    DEEP = {"deep_copy", "deepcopy"}
+
+    def private(cfg_: CFG, fn_: ast.AST, e_: ast.AST, at: int, blocked_, depth: int = 0) -> bool:
+        """is the value of e_ at node `at` derived, on every reaching definition, from a deep copy?"""
+        if depth > 8:
+            return False
+        if isinstance(e_, ast.Call) and (call_name(e_) or "").split(".")[-1] in DEEP:
+            return True
+        if isinstance(e_, (ast.Dict, ast.List, ast.Constant)):
+            return not any(isinstance(x, ast.Name) for x in ast.walk(e_))
+        names = [x for x in ast.walk(e_) if isinstance(x, ast.Name) and isinstance(x.ctx, ast.Load)
+                 and not (isinstance(source.parent(x), ast.Call) and source.parent(x).func is x)
+                 and not (isinstance(source.parent(x), ast.Attribute))]
+        if isinstance(e_, ast.Name):
+            names = [e_]
+        if not names:
+            return False
+        for nm in names:
+            rd = flow.reaching_defs(cfg_, nm.id, blocked_edges=blocked_)
+            defs = rd.get(at, frozenset())
+            if not defs:
+                return False
+            for d_ in defs:
+                v = flow.def_value(cfg_, d_, nm.id)
+                if v is None or not private(cfg_, fn_, v, d_, blocked_, depth + 1):
+                    return False
+        return True
+    n14 = 0
+    for mname, sink_attr, spec in (("add_component", "append", {"insert_copy": True}), ("update_component", "update", {})):
+        f14 = an.methods.get(mname)
+        ctx.require(f14 is not None, "anchor missing: FlowIRConcrete.%s" % mname)
+        c14 = CFG(f14)
+        blocked14 = flow.specialise(c14, spec) if spec else set()
+        params14 = {a_.arg for a_ in f14.args.args[1:]}
+        for nd in c14.nodes:
+            if nd.kind != "stmt" or nd.ast is None:
+                continue
+            for c_ in own_calls(nd.ast):
+                if last_attr(c_) == sink_attr and c_.args and isinstance(c_.func.value, ast.Name) and not (isinstance(c_.args[0], ast.Name) and c_.args[0].id == 'self'):
+                    n14 += 1
+                    ctx.analysed(f14)
+                    ok = private(c14, f14, c_.args[0], nd.id, blocked14)
+                    ctx.ob("C08.R14-stored-components-are-private", c_, ok,
+                           "%s: the definition that enters the description derives from a deep copy of the caller's object" % mname if ok else
+                           "%s puts a definition into the description that is not a deep copy of what the caller handed in (%s): override_object / dict() carry "
+                           "the nested sections over by reference, so two components added or updated from definitions derived from one dictionary share "
+                           "their 'variables' / 'command' sections - set_component_variable on one of them changes the other, whose cache entries are not "
+                           "invalidated, and its next query differs from the configuration computed from scratch" % (mname, short(c_, 50)),
+                           construct="%s: %s receives a private copy" % (mname, short(c_, 40)))
+    init14 = an.methods.get("__init__")
+    for nested in [x for x in ast.walk(init14) if isinstance(x, ast.FunctionDef) and x is not init14] if init14 is not None else []:
+        used_on_components = any(isinstance(c_, ast.Call) and call_name(c_) == "map" and c_.args and isinstance(c_.args[0], ast.Name)
+                                 and c_.args[0].id == nested.name for c_ in ast.walk(init14))
+        if not used_on_components:
+            continue
+        cN = CFG(nested)
+        for nd in cN.nodes:
+            if nd.kind == "stmt" and isinstance(nd.ast, ast.Return) and nd.ast.value is not None:
+                n14 += 1
+                ok = private(cN, nested, nd.ast.value, nd.id, set())
+                ctx.ob("C08.R14-stored-components-are-private", nd.ast, ok,
+                       "the constructor copies every component on its own before it enters the description" if ok else
+                       "the constructor's per-component pipeline returns a component that is not copied on its own: deep_copy of the WHOLE document keeps "
+                       "the aliasing between components that share a section through a YAML anchor - an update of one of them changes the other "
+                       "behind the cache", construct="FlowIRConcrete.__init__.%s: %s" % (nested.name, short(nd.ast, 40)))
+    ctx.floor("C08.R14-stored-components-are-private", n14, 3, "places where a component definition enters the description")
 
     # ---- R6: read set of get_component_configuration ------------------------------------
     closure: List[str] = []
